@@ -28,7 +28,7 @@ impl Prop for C18 {
         "C18"
     }
     fn rule_text(&self) -> String {
-        "case = 1-3 virtual keys (payload key / layer-while-held / macro) operated through on-press, on-release (new and legacy fakekey syntax), a macro item, a sequence and TCP-style ActOnFakeKey ops; populations: 'state' (random press/release/tap/toggle operations, reference state down/up followed by the payload marker within 3 ms, whichever trigger is used), 'hold-for-duration' (D-1/D/D+1 re-arming, exact release tick, one press and one release), 'on-idle' (fires once, not before the idle time has accumulated, not again until re-armed). non-trivial = the payload marker changed state at least once; distinct = config x history hash.".into()
+        "case = 1-3 virtual keys (payload key / layer-while-held / macro) operated through on-press, on-release (new and legacy fakekey syntax), a macro item, a sequence and TCP-style ActOnFakeKey ops; populations: 'state' (random press/release/tap/toggle operations, reference state down/up followed by the payload marker within 3 ms, whichever trigger is used), 'hold-for-duration' (D-1/D/D+1 re-arming, exact release tick, one press and one release), 'on-idle' (fires once, not before the idle time has accumulated since the last input - OS repeats of a held key or layer hold included -, not again until re-armed). non-trivial = the payload marker changed state at least once; distinct = config x history hash.".into()
     }
     fn runs(&self, tier: Tier) -> u64 {
         match tier {
@@ -172,7 +172,9 @@ impl Prop for C18 {
             }
             _ => {
                 let t = *r.pick(&[5u64, 30, 100]);
-                case.cfg = format!("(defcfg rapid-event-delay {red})\n(defsrc a b c)\n(defvirtualkeys vk1 1)\n(deflayer l0 (on-idle {t} tap-vkey vk1) x y)\n");
+                // c is either a plain key or a layer hold (a held key that leaves no key state)
+                let c_act = *r.pick(&["y", "(layer-while-held l1)"]);
+                case.cfg = format!("(defcfg rapid-event-delay {red})\n(defsrc a b c)\n(defvirtualkeys vk1 1)\n(deflayer l0 (on-idle {t} tap-vkey vk1) x {c_act})\n(deflayer l1 _ _ _)\n");
                 case.set("t", t);
                 let (a, b, c) = (oscode_of("a"), oscode_of("b"), oscode_of("c"));
                 let mut ops = vec![];
@@ -189,6 +191,19 @@ impl Prop for C18 {
                         ops.push(Op::Press(k));
                         ops.push(Op::Gap(r.range(2, 6) as u32));
                         ops.push(Op::Release(k));
+                    }
+                    if r.chance(350) {
+                        // a key is held and the OS keeps sending its repeats at intervals shorter
+                        // than the idle time: every repeat is input, so kanata is not idle
+                        ops.push(Op::Gap(r.range(2, 6) as u32));
+                        ops.push(Op::Press(c));
+                        for _ in 0..r.range(3, 8) {
+                            let g = (*r.pick(&[t / 2 + 1, t.saturating_sub(1), 2, 10])).min(t.saturating_sub(1)).max(1);
+                            ops.push(Op::Gap(g as u32));
+                            ops.push(Op::Repeat(c));
+                        }
+                        ops.push(Op::Gap(r.range(1, 3) as u32));
+                        ops.push(Op::Release(c));
                     }
                     ops.push(Op::Gap((t + 30 + r.range(0, 40)) as u32));
                 }
@@ -404,13 +419,15 @@ impl Prop for C18 {
                 for op in &case.ops {
                     match op {
                         Op::Gap(n) => tm2 += *n as u64,
-                        Op::Press(_) | Op::Release(_) => inputs.push(tm2),
+                        Op::Press(_) | Op::Release(_) | Op::Repeat(_) => inputs.push(tm2),
                         _ => {}
                     }
                 }
                 for (ti, f) in taps.iter().enumerate() {
                     // not before the idle time has accumulated since the last input
-                    let li = inputs.iter().filter(|x| **x < *f).max().copied().unwrap_or(0);
+                    // (the firing is decided at the end of tick f-1 and becomes visible in tick f; an
+                    // input that arrives in tick f-1 is processed in tick f, after the decision)
+                    let li = inputs.iter().filter(|x| **x + 2 <= *f).max().copied().unwrap_or(0);
                     if *f < li + t {
                         o.set_fail("C18:on-idle-fired-early", format!("T={t}: fired at tick {f}, last input arrived at {li}: {}", outs_short(&st.trace.outs)), vec![]);
                     }
